@@ -487,7 +487,7 @@ fn gen_cases(a: &Args) -> Vec<(String, String)> {
     }
     // stream 4: code objects of programs compiled by the real pipeline, every target version
     let mut progs_: Vec<String> = progs::fixed_programs();
-    let np = if thorough { 120 } else { 12 };
+    let np = if thorough { 60 } else { 12 };
     for _ in 0..np { progs_.push(progs::gen_program(&mut rng)); }
     for (i, src) in progs_.iter().enumerate() {
         for minor in progs::MINORS {
